@@ -226,16 +226,64 @@ def _close(a, b, tol):
   return (not b.size) or np.abs(a - b).max() <= tol * (1.0 + np.abs(b).max())
 
 
+def _semiaxes(size, gtype):
+  if gtype == 2:
+    return np.array([size[0]] * 3)
+  if gtype == 3:
+    return np.array([size[0], size[0], size[1] + size[0]])
+  if gtype == 5:
+    return np.array([size[0], size[0], size[1]])
+  return np.array(size, dtype=np.float64)
+
+
+def _ellipsoid_force_world(mjm, mjd, g):
+  """world-frame FORCE of geom g under the ellipsoid fluid model (transcription of the force half of mj_ellipsoidFluidModel; float64)"""
+  b = mjm.geom_bodyid[g]
+  gf = mjm.geom_fluid.reshape(mjm.ngeom, -1)[g]
+  coef, blunt, slender, _ang, kutta, magnus = gf[0:6]
+  vm = gf[6:9]
+  rho, visc = mjm.opt.density, mjm.opt.viscosity
+  R = mjd.geom_xmat[g].reshape(3, 3)
+  ang, lin = mjd.cvel[b][:3], mjd.cvel[b][3:]
+  xipos = mjd.xipos[b]
+  lin_com = lin - np.cross(xipos - mjd.subtree_com[mjm.body_rootid[b]], ang)
+  lin_pt = lin_com + np.cross(ang, mjd.geom_xpos[g] - xipos)
+  la = R.T @ ang
+  ll = R.T @ lin_pt - R.T @ mjm.opt.wind
+  s = _semiaxes(mjm.geom_size[g], mjm.geom_type[g])
+  f = np.zeros(3)
+  if rho > 0:
+    f += np.cross(rho * vm * ll, la)
+  vol = 4.0 / 3.0 * np.pi * s[0] * s[1] * s[2]
+  dmax, dmin = s.max(), s.min()
+  dmid = s.sum() - dmax - dmin
+  A_max = np.pi * dmax * dmid
+  speed = np.linalg.norm(ll)
+  f_magnus = np.cross(la, ll) * (magnus * rho * vol)
+  s12, s20, s01 = s[1] * s[2], s[2] * s[0], s[0] * s[1]
+  pd = s12 ** 4 * ll[0] ** 2 + s20 ** 4 * ll[1] ** 2 + s01 ** 4 * ll[2] ** 2
+  pn = (s12 * ll[0]) ** 2 + (s20 * ll[1]) ** 2 + (s01 * ll[2]) ** 2
+  A_proj = np.pi * np.sqrt(pd / max(1e-15, pn))
+  cos_a = pn / max(1e-15, speed * pd)
+  nrm = np.array([s12 ** 2 * ll[0], s20 ** 2 * ll[1], s01 ** 2 * ll[2]])
+  f_kutta = np.zeros(3)
+  if rho > 0 and kutta != 0 and speed > 1e-15:
+    circ = np.cross(nrm, ll) * (kutta * rho * cos_a * A_proj)
+    f_kutta = np.cross(circ, ll)
+  eqD = 2.0 / 3.0 * s.sum()
+  drag = visc * 3.0 * np.pi * eqD + rho * speed * (A_proj * blunt + slender * (A_max - A_proj))
+  f += f_magnus + f_kutta - drag * ll
+  return R @ (f * coef)
+
+
 def _ellipsoid_moment_arm(mujoco, mjm, mjd):
-  """(exists an ellipsoid-model geom whose centre is not the body's xipos,  J^T of the moments (geom_xpos - xipos) x F_geom).
-  F_geom (world-frame force of one geom's ellipsoid fluid model) is recovered from MuJoCo itself: qfrc_fluid restricted to that geom, by switching the other
-  geoms' interaction coefficient off in a copy of the model."""
+  """(some ellipsoid-model geom has its centre off the body's xipos,  sum over those geoms of J_r^T ((geom_xpos - xipos) x F_geom)):
+  the part of MuJoCo's qfrc_fluid that mujoco_warp drops (known defect, Props/C02Witness.lean)."""
   nv = mjm.nv
   arm = np.zeros(nv)
   found = False
-  if not (mjm.opt.density > 0 or mjm.opt.viscosity > 0):
-    return False, arm
-  if (mjm.opt.disableflags & mujoco.mjtDisableBit.mjDSBL_SPRING) and (mjm.opt.disableflags & mujoco.mjtDisableBit.mjDSBL_DAMPER):
+  dis = int(mjm.opt.disableflags)
+  if not (mjm.opt.density > 0 or mjm.opt.viscosity > 0) or ((dis & 32) and (dis & 64)):
     return False, arm
   gf = mjm.geom_fluid.reshape(mjm.ngeom, -1)
   for g in range(mjm.ngeom):
@@ -243,46 +291,12 @@ def _ellipsoid_moment_arm(mujoco, mjm, mjd):
     if b == 0 or gf[g, 0] <= 0 or mjm.body_mass[b] < 1e-15:
       continue
     off = mjd.geom_xpos[g] - mjd.xipos[b]
-    if np.abs(off).max() < 1e-9:
+    if np.abs(off).max() < 1e-7:
       continue
     found = True
-    m2 = mjm.__copy__()
-    gf2 = m2.geom_fluid.reshape(m2.ngeom, -1)
-    for g2 in range(mjm.ngeom):
-      if g2 != g and mjm.geom_bodyid[g2] == b:
-        gf2[g2, 0] = 0.0
-    # bodies other than b: switch their ellipsoid geoms off too (qfrc_fluid of body b's geom g only)
-    for g2 in range(mjm.ngeom):
-      if mjm.geom_bodyid[g2] != b:
-        gf2[g2, 0] = 0.0
-    d2 = mujoco.MjData(m2)
-    d2.qpos[:], d2.qvel[:] = mjd.qpos, mjd.qvel
-    mujoco.mj_forward(m2, d2)
-    # body b is in ellipsoid mode in m2 (geom g has coef > 0); other bodies that lost all ellipsoid geoms fall back to the inertia-box model: remove their share
-    q_all = d2.qfrc_fluid.copy()
-    m3 = m2.__copy__()
-    m3.geom_fluid.reshape(m3.ngeom, -1)[g, 0] = 0.0
-    # with every interaction coefficient 0 all bodies use the inertia-box model, including b: compute b's inertia-box share separately to cancel exactly
-    d3 = mujoco.MjData(m3)
-    d3.qpos[:], d3.qvel[:] = mjd.qpos, mjd.qvel
-    mujoco.mj_forward(m3, d3)
-    # force of geom g at its centre, from the translational Jacobian at geom_xpos: solve for F via the body's 6D wrench using jacobians at two points is
-    # unnecessary: use mj_applyFT linearity instead -> recover the wrench by least squares on [Jp^T Jr^T]
     jp = np.zeros((3, nv)); jr = np.zeros((3, nv))
-    mujoco.mj_jac(mjm, mjd, jp, jr, mjd.geom_xpos[g], b)
-    # q_b = qfrc of body b's geom g alone = q_all - (inertia-box contributions of the other bodies); those are d3 minus b's inertia-box share.
-    # b's inertia-box share = J_b^T wrench_box; obtain it by zeroing: mass trick is intrusive, so solve the 6D wrench of (q_all - d3.qfrc_fluid) in the span of [jp; jr] and [jp_i; jr] ...
-    # Simpler and exact: the dofs of b's own subtree-ancestors see only wrenches; restrict to a least-squares fit of two wrenches (ellipsoid at geom centre, box at xipos).
-    jpi = np.zeros((3, nv)); jri = np.zeros((3, nv))
-    mujoco.mj_jac(mjm, mjd, jpi, jri, mjd.xipos[b], b)
-    A = np.concatenate([jp.T, jr.T, -jpi.T, -jri.T], axis=1)          # unknowns: (F_e, T_e, F_box, T_box)
-    rhs = q_all - d3.qfrc_fluid
-    sol, *_ = np.linalg.lstsq(A, rhs, rcond=None)
-    if np.abs(A @ sol - rhs).max() > 1e-8 * (1 + np.abs(rhs).max()) or np.linalg.matrix_rank(np.concatenate([jp.T, jr.T], axis=1)) < 6:
-      return True, None      # not identifiable from joint space (body has < 6 independent dofs): fall back to "skip fluid comparison"
-    # identifiable only if the body's 6D Jacobian has full rank; then F_e is unique up to the box wrench which is applied at a different point -> use direct formula below
-    Fe = _ellipsoid_force_world(mujoco, mjm, mjd, g)
-    arm += jr.T @ np.cross(off, Fe)
+    mujoco.mj_jac(mjm, mjd, jp, jr, mjd.xipos[b], b)
+    arm += jr.T @ np.cross(off, _ellipsoid_force_world(mjm, mjd, g))
   return found, arm
 
 
@@ -298,6 +312,20 @@ def _cmp(acc, nm, a, b, tol, ctxinfo, site):
     acc.find(f"{nm} differs from MuJoCo C (max |d| {err:.3g}, scale {scale:.3g})", site, "vs-mujoco-" + nm, **ctxinfo)
     return False
   return True
+
+
+def _intercept(scenario, rng, max_tids, per_kernel):
+  """common.intercept, plus: enum-flag scalars (`m.opt.disableflags & DisableBit.X`, passed to `bool` kernel parameters) are converted to plain ints before the
+  records are replayed (IntFlag has __len__, which kernel_corr would take for a vector-valued scalar)."""
+  import enum
+  from harness.corr import kernel_corr
+  with kernel_corr.Recorder(wanted=KERNELS, max_records_per_kernel=per_kernel) as rec:
+    scenario()
+  for r in rec.records:
+    for k, v in list(r["before"].items()):
+      if isinstance(v, enum.Enum):
+        r["before"][k] = int(v)
+  return kernel_corr.check_records(rec, rng, max_tids=max_tids)
 
 
 def _run(ctx, ncases, rec, nflex=0):
@@ -406,7 +434,7 @@ def _run(ctx, ncases, rec, nflex=0):
       one(xml, tags, "flex")
 
   if rec:
-    kc, _ = intercept(KERNELS, scenario, rng, max_tids=12, per_kernel=3)
+    kc = _intercept(scenario, rng, max_tids=12, per_kernel=3)
   else:
     scenario()
     kc = None
